@@ -1,4 +1,5 @@
 import NxProofs.Rmc
+import NxProofs.RmcObj
 /-!
 # C09 — RMC message framing is lossless, strict and specification-conformant
 
@@ -65,7 +66,35 @@ theorem rmc_error_no_trailing (p c e : Nat) (extra : Bytes) (hp : p < 65536) (hc
     decode (specFrame (specProto false p ++ [0] ++ u32le e ++ u32le c ++ extra)) = .error .value :=
   decode_error_trailing p c e extra hp hc he hx hl
 
+/-! ### one message object over time
+The model's `encode` is a function of the object's current field values (there is no other state), so "the bytes
+follow the current fields" holds in the model by construction; what is worth stating is which reference framing a
+response object has after its `error` attribute alone was assigned. The check ties the real object to this by
+encoding ONE `RMCMessage` again after every single-field assignment (harness/c09_objects.py). -/
+
+/-- a prepared response downgraded to an error (`msg.error = code`): the reference error framing of its protocol
+    and call id, whatever method and body the object still holds -/
+theorem rmc_error_assigned_is_reference (m : Msg) (hmode : m.mode = 1) (e : Nat)
+    (h : (Spec.failure m.protocol m.callId e).WF) :
+    encode { m with error := (e : Int) } = .ok (specEncode (.failure m.protocol m.callId e)) :=
+  encode_error_set m hmode e h
+
+/-- the error withdrawn again (`msg.error = -1`): the reference success framing of the method and body it holds -/
+theorem rmc_error_withdrawn_is_reference (m : Msg) (hmode : m.mode = 1) (meth : Nat) (hmeth : m.method = some meth)
+    (h : (Spec.success m.protocol m.callId meth m.body).WF) :
+    encode { m with error := -1 } = .ok (specEncode (.success m.protocol m.callId meth m.body)) :=
+  encode_error_withdrawn m hmode meth hmeth h
+
+/-- a request object's bytes do not depend on its `error` attribute -/
+theorem rmc_request_ignores_error (m : Msg) (hmode : m.mode = 0) (e : Int) :
+    encode { m with error := e } = encode m :=
+  encode_request_ignores_error m hmode e
+
 /-! non-vacuity: the hypotheses are satisfiable at the interesting points -/
+example : encode { ofSpec (.success 0x7F 9 5 [1, 2]) with error := 0x8001000B }
+    = .ok (specEncode (.failure 0x7F 9 0x8001000B)) := by decide
+example : encode { ofSpec (.success 0x7F 9 5 [1, 2]) with error := 0x8001000B }
+    ≠ encode (ofSpec (.success 0x7F 9 5 [1, 2])) := by decide
 example : (Spec.request 0x7F 9 5 [1, 2]).WF := by decide
 example : (Spec.success 0xFFFF 4294967295 0x7FFF []).WF := by decide
 example : (Spec.failure 0x80 1 0x80010002).WF := by decide
